@@ -95,7 +95,7 @@ pub fn provenance_expectation(m: &Message, node: &Node, now_ns: i128, script: &P
     // The expectation follows from the *end state* of the message (a later step can undo an
     // earlier one); the per-step labels name what was done and feed the reach probes.
     let mut min_defect: Option<Rule> = None;
-    let mut lower = |r: Rule, min_defect: &mut Option<Rule>| {
+    let lower = |r: Rule, min_defect: &mut Option<Rule>| {
         *min_defect = Some(match *min_defect {
             Some(x) if x.precedence() <= r.precedence() => x,
             _ => r,
